@@ -1,1 +1,41 @@
-def main : IO Unit := IO.println "kdriver"
+/-
+  kdriver: reads protocol lines on stdin, answers one line per input line.
+  usage: kdriver <engine>       engines: filter | cache
+-/
+import Driver.SExp
+import Driver.Decode
+import Driver.FilterEng
+import Driver.CacheEng
+open Driver
+
+partial def loopFilter (h : IO.FS.Stream) (out : IO.FS.Stream) (univ : List KC.Obj) : IO Unit := do
+  let line ← h.getLine
+  if line.isEmpty then return ()
+  match parseLine line with
+  | some (.list [.atom "universe", os]) =>
+    match decObjs os with
+    | some os => out.putStrLn "ok"; loopFilter h out os
+    | none => out.putStrLn "bad universe"; loopFilter h out univ
+  | some e => out.putStrLn (filterLine univ e); loopFilter h out univ
+  | none => out.putStrLn "bad parse"; loopFilter h out univ
+
+partial def loopCache (evMode : Bool) (h : IO.FS.Stream) (out : IO.FS.Stream) (st : CState) : IO Unit := do
+  let line ← h.getLine
+  if line.isEmpty then return ()
+  match parseLine line with
+  | some e =>
+    let (st', o) := cacheLine evMode st e
+    out.putStrLn o
+    loopCache evMode h out st'
+  | none =>
+    out.putStrLn "bad parse"
+    loopCache evMode h out st
+
+def main (args : List String) : IO UInt32 := do
+  let stdin ← IO.getStdin
+  let stdout ← IO.getStdout
+  match args with
+  | ["filter"] => loopFilter stdin stdout []; return 0
+  | ["cache"] => loopCache false stdin stdout {}; return 0
+  | ["cache-events"] => loopCache true stdin stdout {}; return 0
+  | _ => IO.eprintln "usage: kdriver <filter|cache>"; return 2
